@@ -130,35 +130,13 @@ def _ceil(eng, st, self_v, args, kwargs, node):
 
 
 # environment --------------------------------------------------------------
+# os.environ is a dictionary str -> str living at a fixed address; its content is arbitrary (configuration)
 from pyvc.values import VRef as _VRef
-_env_has = z3.Function("env_has", T.StrS, T.BoolS)
-_env_val = z3.Function("env_val", T.StrS, T.StrS)
-S.cls("os.Environ", {}, external=True)
-S.ext_consts["os.environ"] = _VRef(z3.IntVal(-1001), "os.Environ")
-S.spec_funcs["env_has"] = lambda eng, st, k: VBool(_env_has(k.t))
-S.spec_funcs["env_val"] = lambda eng, st, k: VStr(_env_val(k.t))
-
-
-@_impl("os.Environ.get", cite="os.environ.get(key, default): mapping lookup; the environment is a fixed map during the call")
-def _env_get(eng, st, self_v, args, kwargs, node):
-    key = args[0]
-    default = args[1] if len(args) > 1 else NONE
-    out = []
-    for b, s in eng.branch(st, _env_has(key.t)):
-        out.append(eng.val(s, VStr(_env_val(key.t)) if b else default))
-    return out
-
-
-@_impl("os.Environ.__getitem__", cite="os.environ[key]: KeyError when absent")
-def _env_getitem(eng, st, self_v, args, kwargs, node):
-    key = args[0]
-    out = []
-    for b, s in eng.branch(st, _env_has(key.t)):
-        out.append(eng.val(s, VStr(_env_val(key.t))) if b else eng.raise_new(s, "KeyError"))
-    return out
-
-
-S.classes["os.Environ"].contains = lambda eng, ref, x, st: _env_has(x.t)
+ENV_T = T.Map(T.Str, T.Str)
+ENVIRON = _VRef(z3.IntVal(-1001), ENV_T.cls, ENV_T)
+S.ext_consts["os.environ"] = ENVIRON
+S.spec_funcs["env_has"] = lambda eng, st, k: VBool(st.map_has(ENVIRON, k.t))
+S.spec_funcs["env_val"] = lambda eng, st, k: st.map_get(ENVIRON, k.t)
 
 c = S.ext("warnings.warn", cite="warnings.warn(message, category=UserWarning): issues a warning. A-warn: warnings are not turned into errors")
 c.param("message", T.Obj).param("category", T.Obj, default=NONE).param("stacklevel", T.Obj, default=NONE)
@@ -543,3 +521,106 @@ c = S.ext("BytesIO.getbuffer", cite="BytesIO.getbuffer()")
 c.param("self", T.Ref("BytesIO")).returns(T.Obj).modifies()
 c = S.ext("BytesIO.getvalue", cite="BytesIO.getvalue()")
 c.param("self", T.Ref("BytesIO")).returns(T.Obj).modifies()
+
+
+# =========================================================================
+# file descriptors: ownership accounting for C18 / C20
+S.ghost("fd_open", z3.ArraySort(T.IntS, T.BoolS), "descriptors currently open in this process")
+S.ghost("fd_owned", z3.ArraySort(T.IntS, T.BoolS), "descriptors whose closing has been handed to a finalizer / an owning object")
+S.ghost("fd_inheritable", z3.ArraySort(T.IntS, T.BoolS), "descriptors marked inheritable")
+
+
+@_impl("os.pipe", cite="os.pipe(): two new descriptors (read, write), not inheritable; OSError (EMFILE/ENFILE) when none is available")
+def _os_pipe(eng, st, self_v, args, kwargs, node):
+    from pyvc.values import fresh_const, VTuple
+    out = []
+    s = st.clone()
+    s.emit("pipe_failed", [], eng.site(node))
+    s.notes.append(f"os.pipe@{eng.site(node)} raises OSError")
+    out.append(eng.raise_new(s, "OSError"))
+    r, w = fresh_const("fd_r", T.IntS), fresh_const("fd_w", T.IntS)
+    op = st.ghost_get("fd_open")
+    st.assume(z3.And(r >= 3, w >= 3, r != w, z3.Not(z3.Select(op, r)), z3.Not(z3.Select(op, w))))
+    st.ghost_set("fd_open", z3.Store(z3.Store(op, r, z3.BoolVal(True)), w, z3.BoolVal(True)))
+    st.emit("pipe", [VInt(r), VInt(w)], eng.site(node))
+    out.append(eng.val(st, VTuple([VInt(r), VInt(w)])))
+    return out
+
+
+@_impl("os.close", cite="os.close(fd): the descriptor is closed")
+def _os_close(eng, st, self_v, args, kwargs, node):
+    fd = args[0]
+    st.ghost_set("fd_open", z3.Store(st.ghost_get("fd_open"), fd.t, z3.BoolVal(False)))
+    st.emit("close", [fd], eng.site(node))
+    return [eng.val(st, NONE)]
+
+
+@_impl("os.set_inheritable", cite="os.set_inheritable(fd, flag)")
+def _set_inh(eng, st, self_v, args, kwargs, node):
+    st.ghost_set("fd_inheritable", z3.Store(st.ghost_get("fd_inheritable"), args[0].t, eng.truth(args[1], st)))
+    st.emit("set_inheritable", list(args), eng.site(node))
+    return [eng.val(st, NONE)]
+
+
+@_impl("os.fdopen", cite="os.fdopen(fd, mode): a file object owning the descriptor (closing the file closes it)")
+def _fdopen(eng, st, self_v, args, kwargs, node):
+    f = st.new_obj("File")
+    st.write_field(f, "fd", args[0])
+    st.write_field(f, "path", VStr(""))
+    st.write_field(f, "closed", VBool(False))
+    st.emit("fdopen", [f, args[0]], eng.site(node))
+    return [eng.val(st, f)]
+
+
+def _fexit_fd(eng, st, self_v, args, kwargs, node):
+    fd, _ = st.read_field(self_v, "fd")
+    st.write_field(self_v, "closed", VBool(True))
+    op = st.ghost_get("fd_open")
+    st.ghost_set("fd_open", z3.If(fd.t >= 0, z3.Store(op, fd.t, z3.BoolVal(False)), op))
+    st.emit("close_file", [self_v, fd], eng.site(node))
+    return [eng.val(st, VBool(False))]
+
+
+S.contracts["File.__exit__"].impl = _fexit_fd
+S.contracts["File.close"] = S.contracts["File.__exit__"]
+c = S.ext("File.write", cite="file.write(data): may raise OSError")
+c.param("self", T.Ref("File")).param("data", T.Obj).event("write", "self", "data").modifies()
+c.may_raise.append(("OSError", None))
+
+
+@_impl("multiprocessing.util.Finalize", cite="util.Finalize(obj, callback, args, ...): callback(*args) runs when obj is collected or at exit (A-finalize)")
+def _finalize(eng, st, self_v, args, kwargs, node):
+    from pyvc.values import VObj, fresh_const, VFn, VTuple
+    obj = args[0] if args else NONE
+    cb = args[1] if len(args) > 1 else kwargs.get("callback", NONE)
+    cargs = args[2] if len(args) > 2 else kwargs.get("args", VTuple([]))
+    if isinstance(cb, VFn) and cb.kind == "ext" and cb.name == "os.close" and isinstance(cargs, VTuple) and cargs.items:
+        fd = cargs.items[0]
+        st.ghost_set("fd_owned", z3.Store(st.ghost_get("fd_owned"), fd.t, z3.BoolVal(True)))
+    st.emit("finalize", [obj, cb, cargs], eng.site(node))
+    return [eng.val(st, VObj(fresh_const("finalizer", T.IntS)))]
+
+
+c = S.ext("os.fsencode", cite="os.fsencode(s): bytes of the string (a function of it)")
+c.param("s", T.Obj).returns(T.Obj).modifies().is_pure()
+S.ghost("fork_exec_n", T.IntS, "number of _posixsubprocess.fork_exec calls")
+
+
+@_impl("_posixsubprocess.fork_exec", cite="_posixsubprocess.fork_exec(args, executable_list, close_fds, pass_fds, cwd, env, ..., preexec_fn, [allow_vfork]): pid of the child, OSError when the fork/exec fails")
+def _pfe(eng, st, self_v, args, kwargs, node):
+    from pyvc.values import fresh_const, VTuple
+    out = []
+    packed = [a.v if hasattr(a, "v") and not isinstance(a, type(NONE)) and a.__class__.__name__ == "Star" else a for a in args]
+    s = st.clone()
+    s.emit("fork_exec", packed, eng.site(node))
+    s.emit("fork_exec_failed", [], eng.site(node))
+    s.notes.append(f"fork_exec@{eng.site(node)} raises OSError")
+    out.append(eng.raise_new(s, "OSError"))
+    st.emit("fork_exec", packed, eng.site(node))
+    pid = VInt(fresh_const("childpid", T.IntS))
+    st.assume(pid.t > 0)
+    out.append(eng.val(st, pid))
+    return out
+
+
+S.ext_consts["subprocess._USE_VFORK"] = __import__("pyvc.values", fromlist=["VConst"]).VConst("subprocess._USE_VFORK")
